@@ -4,16 +4,16 @@ parseLeader is interpreted from /repo/src as a generator under contract; its `wh
 buffer, the headers collected so far and every local are arbitrary at the head of a turn), so the clauses hold for the first
 line, for a line completed after any number of waits, and for every later line.  eols = (CRLF, LF) as the head parsers use it.
 
-Let b be the buffer at the head of the turn and t the first terminator of (CRLF, LF), in that order, that occurs in b.
-    no terminator in b, len(b) <= MAX  -> yields None, buffer untouched (idle-stutter: waiting never consumes)
-    no terminator, len(b) > MAX        -> LineTooLong
+Let b be the buffer at the head of the turn and t the EARLIEST terminator (CRLF or LF) in b.
+    no terminator in b, len(b) <= MAX+1 -> yields None, buffer untouched (idle-stutter: waiting never consumes)
+    no terminator, len(b) > MAX+1      -> LineTooLong   (+1: the buffer may end in the CR of a CRLF still to be completed)
     otherwise the line is b up to the FIRST occurrence of t in the WHOLE buffer (the search never starts later than position 0,
     so a terminator straddling two reads is found), exactly line ++ t is consumed, and
         line empty                     -> yields the collected headers (the leader is complete)
         line 'name:value', name non-empty -> headers[name] = value stripped, turn ends, nothing yielded
         otherwise                      -> HTTPException
         line longer than MAX           -> LineTooLong
-Recorded finding (not asserted here): when a bare LF precedes the first CRLF, t is CRLF, not the earliest terminator.
+(Until the repository fix "earliest line terminator" t was the first KIND of terminator found anywhere: recorded then, repaired now.)
 EXT: bytes.decode('iso-8859-1') is a 1:1 uninterpreted map LATIN1, str.strip uninterpreted, cimdict a mapping that logs its sets.
 """
 import z3
@@ -68,8 +68,11 @@ def parse_leader_turn(B):
         crlf, lf = z3.StringVal("\r\n"), z3.StringVal("\n")
         icr, ilf = z3.IndexOf(b, crlf, 0), z3.IndexOf(b, lf, 0)
         found = z3.Or(icr >= 0, ilf >= 0)
-        idx = z3.If(icr >= 0, icr, ilf)
-        tlen = z3.If(icr >= 0, 2, 1)
+        # the EARLIEST terminator of the buffer; CRLF wins where both start (a CRLF's LF is one byte later, so CRLF at i and LF at
+        # i+1: the line ends at i).  (Before the repository's `fix: ... earliest line terminator` this was "CRLF anywhere first".)
+        crlf_first = z3.And(icr >= 0, z3.Or(ilf < 0, icr <= ilf))
+        idx = z3.If(crlf_first, icr, ilf)
+        tlen = z3.If(crlf_first, 2, 1)
         return b, found, idx, tlen
 
     def turn_consumed(c):
@@ -77,7 +80,7 @@ def parse_leader_turn(B):
         b, found, idx, tlen = facts()
         now = z(ctx.st(raw)["v"])
         if marks["yields"]:       # waited: (the handler appended `arrived` AFTER the yield)
-            return mk(z3.And(z3.Not(found), z3.Length(b) <= MAX, now == z3.Concat(b, z(marks["arrived"]))), "bool")
+            return mk(z3.And(z3.Not(found), z3.Length(b) <= MAX + 1, now == z3.Concat(b, z(marks["arrived"]))), "bool")
         line = z3.SubString(b, 0, idx)
         ok = z3.And(found, idx <= MAX, now == z3.SubString(b, idx + tlen, z3.Length(b) - idx - tlen), z3.Length(line) > 0)
         stored = len(hdr.sets) == 1
@@ -121,7 +124,7 @@ def parse_leader_turn(B):
         httpexc = source.class_by_qual(HTTPING + ":HTTPException")
         B.prove("raises-only-HTTPException-subclasses", bool(B.raised(httpexc)), top=True)
         if B.raised(toolong):
-            B.prove("LineTooLong-only-beyond-the-maximum", z3.Or(z3.And(z3.Not(found), z3.Length(b) > MAX), z3.And(found, idx > MAX)), top=True)
+            B.prove("LineTooLong-only-beyond-the-maximum", z3.Or(z3.And(z3.Not(found), z3.Length(b) > MAX + 1), z3.And(found, idx > MAX)), top=True)
         else:
             kind, node = source.load_module(HTTPING).defs["MAX_HEADERS"]
             maxh = node.value if kind == "assign" and hasattr(node, "value") else None
